@@ -162,7 +162,7 @@ claim("C17", "DESIGN.md 5/C17", "Lean theorems on the column-reading logic + cor
       "established by testing on the implementation only (subnormals, extremes, negative zero included). Known finding C17-F16: a missing cell is written as '--'.",
       TB + "Integer columns holding numbers beyond int64 are outside the model (counted).")
 claim("C18", "DESIGN.md 5/C18", "Lean theorems on the command logic over an assumed dataset store + correspondence on generated NetCDF files + faithfulness oracles through the library",
-      "Partial by nature: netCDF4/HDF5 (storage, compression, fill values, attribute copying, CRS discovery) is assumed - 'what is assigned is what is read' - and only validated on generated "
+      "MPilot.C18L (Props/C18Layout.lean) - the frame EEMSWrite builds around the results (Model/NetCdf.ncLayout: dimensions of the template field, coordinate variables, grid-mapping variable, CRS attributes): layout_coordinates_copied (every dimension of the template field is in the output, sized like its coordinate variable, with a coordinate variable of the template's element type, attributes and values), layout_results_on_grid, layout_missing_coordinate; the frame of real output files is compared with the model on generated templates (this found and fixed F25: templates whose coordinate variables carry _FillValue). Partial by nature: netCDF4/HDF5 (storage, compression, fill values, attribute copying, CRS discovery) is assumed - 'what is assigned is what is read' - and only validated on generated "
       "files. Theorems in MPilot.C18: unionMask_spec / ncWrite_spec (every variable keeps shape, element type and values; missing exactly where any result written together is missing), "
       "read_default (float by default, faithful), read_missing_value_mask, read_positive_check, read_fuzzy_check, read_no_such_variable, write_read_round_trip (results of one grid written together and one of them read back: same shape, missing exactly "
       "where some result written with it is missing, the result's own value in every other cell - for any number of results, cells and any position), write_alone_read_back. The real EEMSRead/EEMSWrite are compared with the model "
